@@ -45,6 +45,12 @@ def same(x, y):
         if SIZE_SUBST:
             x = x.xreplace(SIZE_SUBST) if isinstance(x, sp.Basic) else x
             y = y.xreplace(SIZE_SUBST) if isinstance(y, sp.Basic) else y
+        # `(*this)[i]` read through the class's own subscript is the stored component
+        thisf = lambda e_: isinstance(e_, sp.core.function.AppliedUndef) and e_.func.__name__ == 'this'
+        if isinstance(x, sp.Basic):
+            x = x.replace(thisf, lambda e_: AC(*e_.args))
+        if isinstance(y, sp.Basic):
+            y = y.replace(thisf, lambda e_: AC(*e_.args))
         cx, cy = canon(sp.expand(x)), canon(sp.expand(y))
         if cx == cy:
             return True
@@ -286,6 +292,16 @@ def schemas(prog, ctx):
                 vals = [Function('this.components', real=True)(sp.Integer(ri_), sp.Integer(k_)) for k_ in range(lo_i, hi_i)]
                 t = t.xreplace({x_: (sp.Max if x_.func.__name__ == 'MAXEL' else sp.Min)(*vals)})
             t = t.replace(lambda e_: isinstance(e_, AU) and e_.func.__name__ == 'len:this.components', lambda e_: sp.Integer(c_))
+            # *max_element over the whole component list of a Vector
+            t = t.xreplace({Symbol('len(this.components)', integer=True, nonnegative=True): sp.Integer(r_)})
+            for _ in range(4):
+                els = [x_ for x_ in t.atoms(AU) if x_.func.__name__ in ('MAXEL', 'MINEL') and isinstance(x_.args[0], Symbol) and x_.args[0].name == 'arr:this.components']
+                if not els:
+                    break
+                x_ = els[0]
+                lo_i, hi_i = int(sp.simplify(x_.args[1])), int(sp.simplify(x_.args[2]))
+                vals = [Function('this.components', real=True)(sp.Integer(k_)) for k_ in range(lo_i, hi_i)]
+                t = t.xreplace({x_: (sp.Max if x_.func.__name__ == 'MAXEL' else sp.Min)(*vals)})
             t = t.doit()
             t = t.replace(lambda e_: isinstance(e_, AU) and e_.func.__name__ == 'this.components' and all(a_.is_Integer for a_ in e_.args),
                           lambda e_: sp.Integer(entries[tuple(int(a_) for a_ in e_.args)]) if tuple(int(a_) for a_ in e_.args) in entries else e_)
@@ -383,11 +399,7 @@ def schemas(prog, ctx):
     # Norm = sqrt(Dot(this)), Normalize/Normalized divide by Norm
     dotq = L + 'Vector::Dot'
     nf_ = vfn('Norm')
-    o, sx = result_of(prog, nf_)
-    got = o.value
-    ok = isinstance(got, sp.Pow) and got.exp == sp.Rational(1, 2) and isinstance(got.base, sp.core.function.AppliedUndef) \
-        and got.base.func.__name__ == dotq and str(got.base.args[-1]) == 'this'
-    ctx.decide(R, 'Vector::Norm', nf_, ok, 'sqrt(Dot(*this))', 'Norm is %s' % got, form=str(got))
+    scalar('Vector::Norm', nf_, sqrt(S1(AC(i_) ** 2, i_, dim)), inline={dotq})
     NRM = F(L + 'Vector::Norm')(Symbol('obj:this'))
     elem1('Vector::Normalize', vfn('Normalize'), AC(a) / NRM, field=True)
     elem1('Vector::Normalized', vfn('Normalized'), AC(a) / NRM, dim)
